@@ -7,8 +7,8 @@
      canonical_rdata_eq_rfc4034  : digestable table cls ty fs origin = rfc4034_canonical_rdata ty fs origin *)
 From DV Require Import Base.Prelude Model.NameM Model.DnssecM.
 From Coq Require Import Permutation Sorted.
-From DV Require Import Proofs.NameValid Proofs.DnssecRef Proofs.DnssecCanon Proofs.DnssecKey.
-From DV Require Import Proofs.DnssecSort Proofs.DnssecRrsig Proofs.DnssecBitmap.
+From DV Require Import Proofs.NameValid Proofs.NameOrder Proofs.DnssecRef Proofs.DnssecCanon Proofs.DnssecKey.
+From DV Require Import Proofs.DnssecSort Proofs.DnssecRrsig Proofs.DnssecBitmap Proofs.DnssecOrder Proofs.DnssecChain.
 Open Scope Z_scope.
 
 (* Rdata.to_digestable, for any per-type table that passes the RFC 4034 6.2 check, is the RFC
@@ -110,6 +110,39 @@ Theorem bitmap_exact : forall ts,
 Proof. exact from_rdtypes_members. Qed.
 Print Assumptions bitmap_exact.
 
+(* sign_zone(rrset_signer=...) -> _sign_zone_nsec.  For every zone (any delegation / glue / occluded
+   data / empty non-terminal layout; stored with absolute names, or relativized with the apex as
+   the empty name) whose owner names `sorted` are in canonical order:
+   - the NSEC records handed to the signer are, in order, the reference chain over the names that
+     are not beneath a zone cut: every such name exactly once (rfc_chain_owners), `next` = the
+     following such name, the last one wraps to the origin (rfc_chain_next), each bitmap a
+     well-formed encoding of exactly the types at the name (+ RRSIG, NSEC; only NS/DS at a cut);
+   - the other RRsets handed to the signer are exactly the authoritative ones (no RRSIGs, at a
+     delegation point only DS, nothing beneath a delegation). *)
+Theorem nsec_chain_spec_eq : forall (origin apex : name) (relativize : bool) (nodes : list znode)
+    (sorted : list name) (ab : bool),
+  ci_distinct sorted ->
+  Forall (fun n => is_absolute n = ab) sorted ->
+  StronglySorted name_le sorted ->
+  is_absolute origin = true ->
+  (ab = true /\ apex = origin /\ relativize = false) \/ (ab = false /\ apex = [] /\ relativize = true) ->
+  (forall n, In n sorted ->
+     types_at nodes n <> [] /\ Forall (fun t => 1 <= t <= 65535) (types_at nodes n)) ->
+  has_type (types_at nodes apex) tSOA = true ->
+  Permutation (map fst nodes) sorted ->
+  exists calls,
+    sign_zone_nsec origin relativize nodes = Ok calls /\
+    rr_calls calls = rfc_signed apex nodes (rfc_secure apex nodes sorted) /\
+    Forall2 nsec_matches (nsec_calls calls) (rfc_chain origin apex nodes (rfc_secure apex nodes sorted)).
+Proof. exact sign_zone_nsec_eq_rfc. Qed.
+Print Assumptions nsec_chain_spec_eq.
+
+Theorem nsec_chain_visits_each_once : forall origin apex nodes l,
+  map (fun e => fst (fst e)) (rfc_chain origin apex nodes l) = l /\
+  map (fun e => snd (fst e)) (rfc_chain origin apex nodes l) = match l with [] => [] | _ :: r => r ++ [origin] end.
+Proof. intros. split; [apply rfc_chain_owners|apply rfc_chain_next]. Qed.
+Print Assumptions nsec_chain_visits_each_once.
+
 (* ---------- non-vacuity ---------- *)
 Example keytag_hyps_satisfiable :
   key_id 257 3 8 [1; 2; 3; 4; 5] = Ok (rfc_keytag (u16 257 ++ [3; 8] ++ [1; 2; 3; 4; 5]))
@@ -162,3 +195,38 @@ Example bitmap_nonvacuous :
   from_rdtypes [47; 1; 46; 1; 0; 1234] = Ok [(0, [64; 0; 0; 0; 0; 3]); (4, [0; 0; 0; 0; 0; 0; 0; 0; 0; 0; 0; 0; 0; 0; 0; 0; 0; 0; 0; 0; 0; 0; 0; 0; 0; 0; 32])]
   /\ bitmap_types [(0, [64; 0; 0; 0; 0; 3]); (4, [0; 0; 0; 0; 0; 0; 0; 0; 0; 0; 0; 0; 0; 0; 0; 0; 0; 0; 0; 0; 0; 0; 0; 0; 0; 0; 32])] = [1; 46; 47; 1234].
 Proof. split; vm_compute; reflexivity. Qed.
+
+(* a zone ex. with a delegation sub.ex. (NS, DS and a glue-like A at the cut), glue beneath it and
+   a name after it: all hypotheses of nsec_chain_spec_eq hold, and the chain is as expected *)
+Example nsec_chain_hyps_satisfiable :
+  let ex := [[101; 120]; []] in
+  let nm l := l :: ex in
+  let nodes := [ (nm [122], [16]); (ex, [6; 2]); (nm [115], [2; 1; 43]); ([110] :: nm [115], [1]) ] in
+  let sorted := [ ex; nm [115]; [110] :: nm [115]; nm [122] ] in
+  ci_distinct sorted /\ Forall (fun n => is_absolute n = true) sorted /\ StronglySorted name_le sorted /\
+  (forall n, In n sorted -> types_at nodes n <> [] /\ Forall (fun t => 1 <= t <= 65535) (types_at nodes n)) /\
+  has_type (types_at nodes ex) tSOA = true /\ Permutation (map fst nodes) sorted /\
+  rfc_secure ex nodes sorted = [ex; nm [115]; nm [122]] /\
+  sign_zone_nsec ex false nodes =
+    Ok [ SignRR ex 6; SignRR ex 2;
+         SignRR (nm [115]) 43; SignNSEC ex (nm [115]) [(0, [34; 0; 0; 0; 0; 3])];
+         SignRR (nm [122]) 16; SignNSEC (nm [115]) (nm [122]) [(0, [32; 0; 0; 0; 0; 19])];
+         SignNSEC (nm [122]) ex [(0, [0; 0; 128; 0; 0; 3])] ].
+Proof.
+  cbv zeta. split; [|split; [|split; [|split; [|split; [|split; [|split]]]]]].
+  - split.
+    + repeat constructor; cbn; intuition discriminate.
+    + intros x y Hx Hy. cbn in Hx, Hy.
+      repeat (destruct Hx as [<-|Hx]; [|]); try contradiction;
+        repeat (destruct Hy as [<-|Hy]; [|]); try contradiction;
+        try reflexivity; unfold ci_equal; cbn; intros H; discriminate H.
+  - repeat constructor.
+  - repeat constructor; unfold name_le; vm_compute; intros H; discriminate H.
+  - intros n Hn. cbn in Hn. repeat (destruct Hn as [<-|Hn]; [|]); try contradiction;
+      (split; [vm_compute; discriminate|vm_compute; repeat constructor; discriminate]).
+  - vm_compute. reflexivity.
+  - apply Permutation_cons_app with (l1 := [[[101; 120]; []]; [[115]; [101; 120]; []]; [[110]; [115]; [101; 120]; []]]) (l2 := []).
+    rewrite app_nil_r. reflexivity.
+  - vm_compute. reflexivity.
+  - vm_compute. reflexivity.
+Qed.
